@@ -69,7 +69,10 @@ namespace options
         void usage(std::ostream& s) const;
 
     private:
-        const parser& parser_;
+        friend class options::parser;
+
+        // the parser updates this pointer when it gets moved
+        const parser* parser_;
         std::string name_;
         std::string description_;
 
